@@ -21,6 +21,7 @@ type Val struct {
 	Go    types.Type
 	Elems []*Val   // Slice: arr,off,len ; Struct: fields ; Tuple: components
 	Names []string // struct field names
+	Lit   *ast.FuncLit // function value known to be this literal (calls are inlined)
 }
 
 func scalar(t, sort string, g types.Type) *Val { return &Val{T: t, Sort: sort, Go: g} }
@@ -141,6 +142,10 @@ type Eng struct {
 	lastArgs     []*Val
 	retCount     map[string]int
 	localRefs    map[string]bool
+	inlining     map[*ast.FuncLit]bool
+	goOrd        int
+	oldState     *State // state in which old(...) is evaluated (entry state, or pre-call state for callee ensures)
+	inGo         int
 	counterHavocked map[string]bool
 }
 
